@@ -51,7 +51,7 @@ func (x *Exec) call(fr *Frame, st *State, in ssa.Instruction, c *ssa.CallCommon,
 			return
 		}
 		// closed-world dispatch on the repo's own interfaces
-		if namedInRepo(c.Value.Type()) && recv.K == VIface {
+		if namedInRepo(c.Value.Type()) && recv.K == VIface && len(x.implementers(types.Unalias(c.Value.Type()).Underlying().(*types.Interface))) > 0 {
 			it := types.Unalias(c.Value.Type()).Underlying().(*types.Interface)
 			impls := x.implementers(it)
 			x.mustNot(fr, st, in, Eq(recv.Tag, Num(0)), "nil-interface-call")
